@@ -185,6 +185,10 @@ def make_parse_case(text: str, tag: str) -> Case:
 def replay(inp: Any) -> Case:
     if "text" in inp:
         return make_parse_case(inp["text"], "replay")
+    if isinstance(inp, dict) and inp.get("kind") == "standalone":
+        cs = make_standalone_cases(inp["n"], inp["m"], [coqio.num_unjson(q) for q in inp["qs"]])
+        bad = [c_ for c_ in cs if c_.violation]
+        return (bad or cs)[0]
     if isinstance(inp, dict) and inp.get("kind") == "note":
         return make_note_case(coqio.num_unjson(inp["k"]))
     if isinstance(inp, dict) and inp.get("kind") == "svs":
@@ -262,6 +266,18 @@ def gen_values(rng: random.Random, n: int) -> List[Any]:
         k = rng.randrange(2 ** 49, 10 ** 15 - 1)
         vals.append(Fraction(k * d + rng.choice([1, d - 1]), d))
     vals += [Fraction(999999999999999 * 16 + 15, 16), Fraction(562949953421312 * 16 + 15, 16)]
+    # Fractions with HUGE numerators / denominators (beyond 10^6, beyond 2^53) a hair away from a displayable fraction or
+    # from a rounding boundary: approximating the Fraction, or converting numerator and denominator to floats separately,
+    # changes the class (fraction vs decimal) or the rounded digit
+    vals += [Fraction(10 ** 12 + 1, 2 * 10 ** 12), Fraction(666666667, 10 ** 9), Fraction(1235 * 10 ** 9 + 1, 10 ** 13),
+             Fraction(9 * 2 ** 57 + 2431, 2 ** 60 + 1921), Fraction(1005 * 10 ** 20 - 7, 10 ** 21), Fraction(5005 * 10 ** 18 - 15, 10 ** 19)]
+    for _ in range(max(6, n // 100)):
+        big = 10 ** rng.randrange(7, 40) + rng.randrange(1, 1000)
+        target = rng.choice([Fraction(1, 2), Fraction(2, 3), Fraction(5, 16), Fraction(1235, 10000), Fraction(2005, 2), Fraction(9, 8),
+                             Fraction(1001, 10), Fraction(12345, 100), Fraction(999, 2)])
+        eps = Fraction(rng.choice([1, -1]), big)
+        vals.append(target + eps)
+        vals.append(Fraction(rng.randrange(2 ** 53, 2 ** 70), rng.randrange(2 ** 53, 2 ** 64) | 1))
     vals += [0.0, 0.5, 1.5, 2.5, 0.125, 0.0625, 0.0005, 0.00045, 0.012345, 99.95, 9.995, 0.9996, 999.5, 1e15, 1e-300,
              5e-324]
     vals = [v for v in vals if v >= 0 and v <= 10 ** 15]
@@ -373,6 +389,37 @@ def make_svs_case(v: Any, k: Any) -> Case:
                 coq_out=coqio.string(shown), impl=out, violation=viol, nontrivial=True, tags=["svs", type(true).__name__])
 
 
+def make_standalone_cases(n: int, m: int, qs: List[Any]) -> List[Case]:
+    """The stand-alone page of a recipe "for n" asked for m servings shows every number times EXACTLY m/n (a rational):
+    numbers that can be shown exactly (integers, allowed-denominator fractions) must be."""
+    import tempfile
+    import pathlib
+    from recipe_grid.static_site.standalone_page import generate_standalone_page
+    from recipe_grid.number_formatting import format_number as _fmt
+    lines = "".join(f"    {_fmt(q)} thing{i}\n" for i, q in enumerate(qs))
+    text = f"# Test for {n}\n\nUse {{{_fmt(qs[0])}}} here.\n\n{lines}"
+    with tempfile.TemporaryDirectory() as d:
+        fn = pathlib.Path(d) / "r.md"
+        fn.write_text(text)
+        page = generate_standalone_page(fn, servings=m)
+    shown = [_shown_number(x) for x in re.findall(r'<span class="[^"]*rg-scaled-value[^"]*"[^>]*>(.*?)</span>', page, flags=re.S)]
+    want = [Fraction(m), Fraction(qs[0]) * m / n] + [Fraction(q) * m / n for q in qs]
+    out: List[Case] = []
+    if len(shown) < len(want):
+        return [Case(input={"kind": "standalone", "n": n, "m": m, "qs": [coqio.num_json(q) for q in qs]}, coq_in=coqio.num(0),
+                     coq_out=coqio.string(""), impl=shown, nontrivial=True, tags=["standalone"],
+                     violation=f"stand-alone page for {m} of {n} servings shows {len(shown)} scaled values, {len(want)} expected")]
+    for w, sh in zip(want, shown):
+        v = int(w) if w.denominator == 1 else w
+        viol = oracle(v, sh)
+        if viol:
+            viol = f"stand-alone page for {m} servings of a recipe for {n}: {viol}"
+        out.append(Case(input={"kind": "standalone", "n": n, "m": m, "qs": [coqio.num_json(q) for q in qs], "true": coqio.num_json(v),
+                               "shown": sh}, coq_in=coqio.num(v), coq_out=coqio.string(sh), impl=sh, violation=viol, nontrivial=True,
+                        tags=["standalone", type(v).__name__]))
+    return out
+
+
 def suites(tier: str, seed: int) -> List[Suite]:
     sh_p = Suite(name="shownprop", imports=["From RG Require Import Model.Recipe Model.Units Model.Html Model.HtmlChecks."],
                  in_ty="proportion", out_ty="Units.res str", check="check_render_proportion", show="render_proportion")
@@ -388,12 +435,14 @@ def suites(tier: str, seed: int) -> List[Suite]:
         imports=["From RG Require Import Model.NumParse."],
         in_ty="str", out_ty="(option num)", check="check_parse", show="parse_number",
     )
+    sa = Suite(name="standalone", imports=["From RG Require Import Model.NumFmt."], in_ty="num", out_ty="str", check="check_format",
+               show="format_number")
     sn = Suite(name="scalenote", imports=["From RG Require Import Model.NumFmt."], in_ty="num", out_ty="str", check="check_format",
                show="format_number")
     ss = Suite(name="shownsvs", imports=["From RG Require Import Model.NumFmt."], in_ty="num", out_ty="str", check="check_format",
                show="format_number")
     if tier == "replay":
-        return [su, sp, sh_p, sh_q, sn, ss]
+        return [su, sp, sh_p, sh_q, sn, ss, sa]
     rng = random.Random(seed * 7919 + 11)
     n = 3000 if tier == "quick" else 60000
     seen = set()
@@ -472,4 +521,8 @@ def suites(tier: str, seed: int) -> List[Suite]:
             ss.cases.append(make_svs_case(v, k))
     for v in [x for x in gen_values(random.Random(seed * 59 + 2), 100 if tier == "quick" else 2000) if x < 10 ** 12]:
         ss.cases.append(make_svs_case(v, 1))
-    return [su, sp, sh_p, sh_q, sn, ss]
+    rng4 = random.Random(seed * 61 + 9)
+    for n_, m_ in [(3, 1), (3, 2), (3, 4), (6, 1), (6, 5), (2, 3), (4, 1), (7, 3), (3, 3), (12, 5)][: 10 if tier == "quick" else 10]:
+        qs = [1, 2, Fraction(5, 2), 10, rng4.randrange(1, 50), Fraction(rng4.randrange(1, 20), rng4.choice([2, 3, 4, 8]))]
+        sa.cases += make_standalone_cases(n_, m_, qs)
+    return [su, sp, sh_p, sh_q, sn, ss, sa]
